@@ -11,7 +11,7 @@ EXPLANATION = (
     "duplicate test and after the member's reader succeeded, and succeeds only when all seven are set; content that "
     "precedes tags is deferred and its flag is set only after read_content ran; unknown members are skipped (rest of "
     "name, colon, value) without consuming the opening quote twice, and the value skipper dispatches on exactly "
-    "FIRST(JSON value); the reported consumed length is the cursor left by the closing-brace test. That accessor "
+    "FIRST(JSON value); the reported consumed length is the cursor left by the closing-brace test; what json_unescape writes is at every write a constant byte of the escape table, input bytes copied verbatim, or encode_utf8's encoding of a \\u code point (a computed value stored as one byte must be proved below 0x80). That accessor "
     "values equal an independent parser's on all texts is not decided.")
 ASSUMPTIONS = []
 
